@@ -222,7 +222,7 @@ func (f *srcFile) lineClass(l int) string {
 	if l >= f.NL+2 {
 		return "over"
 	}
-	if len(f.Funcs) == 0 || l <= f.Funcs[0].DeclLine {
+	if len(f.Funcs) == 0 || l < f.Funcs[0].DeclLine {
 		return "outside"
 	}
 	for _, fn := range f.Funcs {
